@@ -850,12 +850,12 @@ def c09(r):
               "objects with a digest of all accessors of the receiver before and after (a call must not change its receiver and must repeat its "
               "result); one letter of the history alphabet writes garbage through every setter of every object the accessors hand out (holiday records included), and every sample object must read the same after every setter of every object it handed out was called. Session.tla specifies the whole mutable state a client can see (date objects with "
               "their chart convention, chart handles as views, the holiday table) and which call may change which part; TLC checks the frame "
-              "conditions (%s) and enumerates every session of 4 calls (Create / Handle / SetSect / Fix / Rename / recovered panic; 33 172), %s of which are "
+              "conditions (%s) and enumerates every session of 4 calls (Create / Handle / SetSect / Fix / Rename / recovered panic / Write = every setter of every handed-out object; 38 944), %s of which are "
               "executed on real objects with a digest of every accessor of every live object after every call: an object nobody touched and a "
               "holiday day no fix-up touched must show their fresh-state reference. Distinct non-trivial case = distinct schedule, history or session." %
               ("4 processes x 2 calls (12M states) and 3 x 2 with liveness" if thorough else "3 processes x 2 calls x 2 years (97k states)",
                "2520 orders of 4x2" if thorough else "90 orders of 3x2", 5 if thorough else 4,
-               "205k states, depth 5" if thorough else "19k states, depth 4", "all" if thorough else "2 500 seeded"))
+               "594k states, depth 5" if thorough else "42k states, depth 4", "all" if thorough else "2 500 seeded"))
     r.assumptions += ["interleavings are exhaustive at lock granularity for 3-4 goroutines; below that granularity the Go race detector observes executed schedules only",
                       "NewLunarYear's computation is total (no panic under the lock): observed for years -2000..12000 in this run, not proved"]
     r.build()
